@@ -597,7 +597,8 @@ class Expander:
                 spec["sigsubs"].append((a.strip(), b.strip()))
             elif k in ("body_sub", "body_sub?"):
                 a, b = split_sub(w[1])
-                spec["bodysubs"].append((a.strip(), b.strip(), k.endswith("?")))
+                # rewrites are applied where they match; where the text is gone the code is checked as it is
+                spec["bodysubs"].append((a.strip(), b.strip(), True))
             elif k == "desugar_try":
                 spec["desugar_try"] = True
             elif k == "desugar_for":
@@ -774,7 +775,7 @@ class Expander:
         for it in cands:
             kids = it.children()
             names = {k.name for k in kids if k.kind == "fn"}
-            if not keep_all and not (names & set(wanted)) and len(cands) > 1:
+            if not keep_all and not (names & set(wanted)) and len(cands) > 1 and not (add and not wanted and not emitted_header):
                 continue
             cname = rlex.norm(it.header)
             notsel = []
@@ -855,9 +856,12 @@ class Expander:
             elif w[0] == "inmod":
                 # wrap the extracted items in a module of the unit (keeps names of different crates/modules apart)
                 self.out.add("pub mod %s {\n    use super::*;\n" % w[1].strip(), ("tmpl", node["line"]))
+                uses = [c for c in node["children"] if c["text"].startswith("use ")]
+                for c in uses:
+                    self.out.add("    " + c["text"].rstrip(";") + ";\n", ("tmpl", c["line"]))
                 saved = getattr(self, "_modprefix", "")
                 self._modprefix = saved + w[1].strip() + "::"
-                self._walk_nodes(rel, src, items, node["children"])
+                self._walk_nodes(rel, src, items, [c for c in node["children"] if c not in uses])
                 self._modprefix = saved
                 self.out.add("}\n", ("tmpl", node["line"]))
             elif w[0] == "mod":
